@@ -14,6 +14,7 @@ import (
 )
 
 type Frame struct {
+	inDevirt   bool
 	fn         *ssa.Function
 	regs       map[ssa.Value]*Val
 	cellOf     map[*ssa.Alloc]*Cell
